@@ -7,6 +7,7 @@ package main
 
 import (
 	"fmt"
+	"strings"
 	"go/types"
 
 	"golang.org/x/tools/go/ssa"
@@ -395,8 +396,15 @@ func (g *Gen) implementations(it types.Type, m *types.Func) []*ssa.Function {
 
 // modifiesDescs: component-level reading of a modifies clause.
 func (g *Gen) modifiesDescs(ct *Contract, where string) (out []*ModDesc, all bool) {
-	pkg := g.pkgByPath(ct.Pkg)
+	basePkg := g.pkgByPath(ct.Pkg)
 	for _, it := range g.expandFrame(ct.Modifies) {
+		pkg := basePkg
+		if i := strings.Index(it, "::"); i > 0 {
+			if p := g.pkgByPath(it[:i]); p != nil {
+				pkg = p
+			}
+			it = it[i+2:]
+		}
 		switch it {
 		case "nothing":
 			continue
